@@ -23,6 +23,7 @@ HAZARDS = [
     ('unicode', 'Zoë ünïcode → arrows and “curly quotes”'),
     ('percent-braces', '100% {brace} <tag> &amp; %s %(name)s {0}'),
     ('backslash-mid', 'A back\\slash in the mid\\dle of words'),
+    ('valid-escapes', 'Write to C:\\temp\\nightly\\books and \\x41 or \\101 then \\u0041'),
     ('one-char', 'x'),
     ('trailing-blank-lines', 'Text with trailing blank lines\n\n'),
     ('leading-indent', '   indented start and  double  spaces'),
